@@ -456,6 +456,10 @@ impl MapKeys {
     pub(crate) fn fits_row_count(&self, row_count: usize) -> bool {
         !self.fix_stack.is_empty() || self.len == row_count
     }
+    /// Whether these are the keys of a fixed map
+    pub(crate) fn is_fixed(&self) -> bool {
+        !self.fix_stack.is_empty()
+    }
     fn capacity(&self) -> usize {
         self.indices.len()
     }
